@@ -453,6 +453,88 @@ theorem c34_head (kdf : Kdf S K) (s0 : S) (rs : List Req) :
       have := ih y used hI
       simpa [after, run, hg, handedOut] using this
 
+/-! ## The `u32` domain of the real code
+
+`Generation = u32` in ratchet.rs; the model uses `Nat`. The three theorems below show that the `Nat`
+model *is* the `u32` code for every history whose requested generations are below `u32::MAX`:
+no `u32` addition or subtraction that the code evaluates can wrap, and the extra headroom conjunct of
+the first window check does not change its verdict. -/
+
+/-- `u32::MAX`. -/
+def u32Max : Nat := 4294967295
+
+/-- The first window check exactly as written in the source (`c34_source_ops.futureCond`), over
+    naturals: `generation_head < u32::MAX - maximum_forward_distance && generation >
+    generation_head + maximum_forward_distance`. -/
+def futureGuardU32 (hd g fwd : Nat) : Bool :=
+  decide (hd < u32Max - fwd) && decide (g > hd + fwd)
+
+/-- **The headroom conjunct is transparent.** For `u32` operands the source's guarded comparison
+    has the verdict of the model's plain `g > hd + fwd`, and whenever the sum is evaluated (the
+    `&&` is short-circuit) it fits a `u32`; `u32::MAX - fwd` cannot underflow. -/
+theorem c34_u32_future_guard (hd g fwd : Nat) (hg : g ≤ u32Max) (hf : fwd ≤ u32Max) :
+    (futureGuardU32 hd g fwd = true ↔ g > hd + fwd)
+    ∧ (hd < u32Max - fwd → hd + fwd ≤ u32Max)
+    ∧ fwd ≤ u32Max := by
+  refine ⟨?_, ?_, hf⟩
+  · simp only [futureGuardU32, Bool.and_eq_true, decide_eq_true_eq]
+    constructor
+    · intro h; exact h.2
+    · intro h; exact ⟨by omega, h⟩
+  · intro h; omega
+
+/-- Every generation handed out is the generation of one of the requests. -/
+theorem handedOut_mem (kdf : Kdf S K) (rs : List Req) (y : Recv S K) (g : Nat)
+    (h : g ∈ handedOut kdf y rs) : ∃ r ∈ rs, r.g = g := by
+  induction rs generalizing y with
+  | nil => simp [handedOut] at h
+  | cons r rs ih =>
+    cases hg : y.get kdf r.g r.fwd r.ooo with
+    | ok q =>
+      obtain ⟨y', k'⟩ := q
+      simp only [handedOut, hg, List.mem_cons] at h
+      rcases h with h | h
+      · exact ⟨r, by simp, h.symm⟩
+      · obtain ⟨r', hr', e⟩ := ih y' h
+        exact ⟨r', by simp [hr'], e⟩
+    | error e =>
+      simp only [handedOut, hg] at h
+      obtain ⟨r', hr', e⟩ := ih y h
+      exact ⟨r', by simp [hr'], e⟩
+
+private theorem foldr_max_le (l : List Nat) (m : Nat) (h : ∀ g ∈ l, g + 1 ≤ m) :
+    l.foldr (fun g a => max a (g + 1)) 0 ≤ m := by
+  induction l with
+  | nil => simp
+  | cons a l ih =>
+    have h1 := ih (fun g hg => h g (by simp [hg]))
+    have h2 := h a (by simp)
+    simp only [List.foldr_cons]; omega
+
+/-- **No `u32` wrap is reachable below `u32::MAX`.** After any request history in which every
+    requested generation is `< u32::MAX` (any order, any window parameters, failed calls included)
+    the head generation is `≤ u32::MAX`; as every prefix of such a history is again one, this holds
+    between any two calls, and inside a call the head only takes values from the old head up to
+    `g + 1`. So every `y.generation += 1` the real code executes is on a value `< u32::MAX` and the
+    `Nat` model and the `u32` code coincide on these histories. (A request for `u32::MAX` itself
+    would make the final `+= 1` overflow: panic in debug builds, wrap to 0 in release — outside the
+    claim, see `assumptions`.) -/
+theorem c34_u32_head_bounded (kdf : Kdf S K) (s0 : S) (rs : List Req)
+    (hb : ∀ r ∈ rs, r.g < u32Max) :
+    (after kdf (Recv.init s0 : Recv S K) rs).head.gen ≤ u32Max := by
+  rw [c34_head]
+  apply foldr_max_le
+  intro g hg
+  obtain ⟨r, hr, e⟩ := handedOut_mem kdf rs _ g hg
+  have := hb r hr
+  omega
+
+/-- Inside a successful call for `g ≥ head` the skip loop ends exactly at `g`, so the last
+    `+= 1` is executed on the value `g` (this is `skip_gen` restated for the `u32` reading). -/
+theorem c34_u32_skip_ends_at (kdf : Kdf S K) (y : Recv S K) (g : Nat) (h : g ≥ y.head.gen) :
+    (Recv.skip kdf (g - y.head.gen) y).head.gen = g := by
+  rw [skip_gen]; omega
+
 /-! ## Non-vacuity (kdf instantiated with secret = generation number, key = secret) -/
 
 private def kdfN : Kdf Nat Nat := { key := id, next := (· + 1) }
@@ -471,6 +553,12 @@ example : (after kdfN (Recv.init 0 : Recv Nat Nat) ([0, 4, 2].map (rq 3))).past
     fixes `ooo`). -/
 example : (run kdfN (Recv.init 0) [rq 1 0, rq 1 3, rq 9 1]).2.map code
     = [.inl 0, .inl 3, .inr .oob] := by decide
+
+/-- The guard at the edge of the `u32` domain: head `u32::MAX - 2`, forward distance 5 — the
+    headroom conjunct is false, and so is the plain comparison for every `u32` generation. -/
+example : futureGuardU32 (u32Max - 2) u32Max 5 = false ∧ ¬ (u32Max > (u32Max - 2) + 5) := by decide
+example : futureGuardU32 10 20 5 = true ∧ futureGuardU32 10 15 5 = false := by decide
+example : ∀ r ∈ ([0, 4, 3, 2, 1, 4, 9, 0].map (rq 4)), r.g < u32Max := by decide
 
 /-! ## Tie to the current source text (DESIGN.md §4.2) -/
 
